@@ -380,6 +380,30 @@ def openList (executable : Str) (args : List Str) (streams : Nat) (env : List (S
   openArgv executable args.length (args.map some) streams env
 
 
+/-! ### environment of the own process (Process.cpp:947-1035)
+
+  The environment is an association list name → value (names unique).  `setenv`/`unsetenv`
+  reject an empty name and a name containing `=` (POSIX). -/
+
+abbrev PEnv := List (Str × Str)
+
+def validName (k : Str) : Bool := !k.isEmpty && !k.contains 61
+
+def envRemove (k : Str) (e : PEnv) : PEnv := e.filter (fun kv => kv.1 != k)
+
+/-- `Process::setEnvironmentVariable(name, value)`: an empty value removes the variable
+    (repaired: `true` when unsetenv succeeded) -/
+def setEnvironmentVariable (e : PEnv) (k v : Str) : PEnv × Bool :=
+  if !validName k then (e, false)
+  else if v.isEmpty then (envRemove k e, true)
+  else ((k, v) :: envRemove k e, true)
+
+/-- `Process::getEnvironmentVariable(name, defaultValue)` -/
+def getEnvironmentVariable (e : PEnv) (k d : Str) : Str :=
+  match e.find? (fun kv => kv.1 == k) with
+  | some kv => kv.2
+  | none => d
+
 /-! ### the Process object: pid and pipe descriptors with 0 meaning "closed" (Process.hpp:151-162)
 
   `running` = `pid != 0`; `out/err/inp` = `fdStdOutRead/fdStdErrRead/fdStdInWrite != 0`.
